@@ -30,6 +30,8 @@ type c07Store struct {
 	cluster *arvados.Cluster
 	dir     string
 	blocks  map[string][]byte // hash -> data, PUT before the cases run
+	putResp []string          // locators returned by the PUTs
+	putAt   time.Time
 }
 
 func c07NewStore(t *testing.T, signing bool, key string, ttl time.Duration, nblocks int, tag string) *c07Store {
@@ -61,7 +63,7 @@ func c07NewStore(t *testing.T, signing bool, key string, ttl time.Duration, nblo
 	if err := h.setup(ctx, cluster, "", prometheus.NewRegistry(), testServiceURL); err != nil {
 		t.Fatal(err)
 	}
-	st := &c07Store{h: h, cluster: cluster, dir: dir, blocks: map[string][]byte{}}
+	st := &c07Store{h: h, cluster: cluster, dir: dir, blocks: map[string][]byte{}, putAt: time.Now()}
 	for k := 0; k < nblocks; k++ {
 		data := []byte(fmt.Sprintf("c07 block %s %d", tag, k))
 		hash := fmt.Sprintf("%x", md5.Sum(data))
@@ -73,6 +75,7 @@ func c07NewStore(t *testing.T, signing bool, key string, ttl time.Duration, nblo
 			t.Fatalf("PUT: %d %s", rec.Code, rec.Body.String())
 		}
 		st.blocks[hash] = data
+		st.putResp = append(st.putResp, strings.TrimSuffix(rec.Body.String(), "\n"))
 	}
 	return st
 }
@@ -167,7 +170,7 @@ func TestVerifC07KS(t *testing.T) {
 		present := signed
 		ptok := tok
 		scheme := []string{"Bearer ", "OAuth2 ", "Bearer   ", "OAuth2\t"}[r.Intn(4)]
-		const repl = "0123456789abcdefAFgGBz@+-_ "
+		const repl = "0123456789abcdefAFgGBz@+-_.~"
 		switch r.Intn(20) {
 		case 0:
 			present, what = loc, "unsigned"
@@ -202,7 +205,13 @@ func TestVerifC07KS(t *testing.T) {
 		case 15:
 			present, what = hash, "bare-hash"
 		}
-		if strings.ContainsAny(present, "/%?#") {
+		badChar := strings.ContainsAny(present, "/%?#")
+		for _, c := range []byte(present) {
+			if c < 0x21 || c > 0x7e {
+				badChar = true // cannot be written into a request line
+			}
+		}
+		if badChar {
 			cs.Tag("skipped-url-char")
 			continue
 		}
@@ -242,6 +251,24 @@ func TestVerifC07KS(t *testing.T) {
 		desc := map[string]interface{}{"index": i, "kind": "get", "what": what, "signing": signing, "path": path, "authorization": auth, "has_authorization": hasAuth,
 			"stored": stored, "status": rec.Code, "body_is_block": bodyOK, "expiry": exp}
 		cs.Add(i, term, desc, signing, "kind=get", fmt.Sprintf("get-status=%d", rec.Code), "get-what="+what, fmt.Sprintf("signing=%v", signing))
+	}
+	// the locators returned by PUT: signed for the caller's token whenever a signing key is configured
+	k := 0
+	for si, st := range stores {
+		for _, loc := range st.putResp {
+			idx := n + k
+			k++
+			if only >= 0 && only != idx {
+				continue
+			}
+			key := st.cluster.Collections.BlobSigningKey
+			ttl := st.cluster.Collections.BlobSigningTTL.Duration()
+			err := arvados.VerifySignature(loc, "puttoken", ttl, []byte(key))
+			obs := map[error]string{nil: "VOk", arvados.ErrSignatureExpired: "VExpired", arvados.ErrSignatureInvalid: "VInvalid", arvados.ErrSignatureMissing: "VMissing"}[err]
+			term := fmt.Sprintf("CVerify %s %s %s %s %s %s", gStr(loc), gStr("puttoken"), gN(int64(ttl)), gStr(key), gN(st.putAt.UnixNano()), obs)
+			desc := map[string]interface{}{"index": idx, "kind": "put-response", "store": si, "locator": loc, "token": "puttoken", "ttl_ns": int64(ttl), "key": key, "result": obs}
+			cs.Add(idx, term, desc, key != "", "kind=put-response", "put-response-verify="+obs)
+		}
 	}
 	cs.Write()
 }
